@@ -19,6 +19,9 @@
 //	            write requests of that transaction map to, every write of the
 //	            transaction that is not overwritten later in it is present
 //	            afterwards, and no other registry's data changes
+//	            several read-write rules with overlapping storage: model-based
+//	            (nested_test.go): reference writes applied less nested first,
+//	            expected Get of every sub-request and of the prefix
 //	concurrent  goroutines create transactions, write disjoint paths through a
 //	            view and commit under the storage lock with seeded yields; the
 //	            same commit checks under the lock, the final state, and
@@ -1236,10 +1239,12 @@ func TestVerifC30(t *testing.T) {
 	c := kit.New("C30", "exploration")
 	defer c.Done(t)
 	c.Rule("(a) seeded cases: 1-2 generated registries (storage schema tree of fixed-key maps, any-key maps, int/number ranges, string choices/patterns, bool, any, arrays, alternatives, or no schema), each with a generated view (2-8 top-level rules, literal and placeholder subkeys, nesting through content up to 2 levels, access omitted/read-write/read/write, twin rules sharing a request) and 14-26 get/set/unset requests derived from the rules (full and prefix requests, bound placeholders, values built to satisfy every matching rule) of which ~40% of the sets are mutated (nil, wrong nesting, unused branch, schema violation, bad key, malformed/unknown/too-long request, nested nil), run either as one transaction per request (SetViaView shape) or as 2-3 interleaved multi-request transactions, over an in-memory bag, a serialized bag or the state entry behind registrystate.RegistryTransaction. A case is non-trivial when it committed at least one accepted write, had at least one rejected request or commit, and at least one request matched several rules; distinct = distinct (registries, ops) content. " +
+		"(a2) nested-group cases (case_index 1000000+j): the same, but every view also carries 1-2 groups of 2-4 rules that share a request prefix (head[.literal][.{shared placeholders}]) and have distinct sub-keys in random order, whose storage paths extend each other by 1-2 levels (storage of one member a prefix of another's; at a position where any key may stand a member may hold another placeholder name or a literal key instead of the outer member's placeholder), rules listed in random order; 45% of the requests aim at a group: Set of the shared prefix with a map value carrying every member's sub-key (open placeholders filled with 1-3 keys incl. the literal keys sibling members use), Set/Unset/Get of one member or of the prefix, each group Set followed by 0-2 Gets of sub-requests or the prefix. A nested-group case is non-trivial when it committed an accepted write and at least one accepted Set was modelled whose reference writes overlap (one storage path a strict prefix of another's). " +
 		"(b) seeded concurrent histories of 3-4 writer goroutines and a reader over one registry, see counters conc_*.")
 	c.Assume("reference matcher: request and rule request are dot-split; a request matches a rule when it is no longer than the rule's request and equal position-wise (placeholders bind); the rule's storage template with bound placeholders substituted (unbound ones free) is what may be touched; content rules are the parent's request/storage joined with the child's, with the child's own access (default read-write)")
 	c.Assume("stored data = the bag the transaction's write callback last received (in-memory or serialized), resp. the registry-databags state entry; an absent bag equals an empty one; comparison is on decoded JSON")
 	c.Assume("read-after-write is only judged when every rule matching the request is read-write, the value holds no null, and the request wrote pairwise non-overlapping storage paths; when an unmatched part of a matching rule's request is a placeholder the read may return a superset")
+	c.Assume("read-after-write over aliasing storage (several read-write rules match the Set and the plain clause above does not apply): the reference lists the Set's storage writes (for each matching rule the value found by walking the unmatched rest of the rule's request through the written value, an open placeholder standing for every key at that level) and applies them to a model document in the order View.Set documents (less nested storage paths before more nested ones, so the value written through the more nested rule is what that path holds, also when the outer rule's value says otherwise); two writes to one path with different values are not judged. The model document starts from the stored data when the transaction holds only this request, otherwise from nothing and only requests leaving no placeholder open are read back. Expected Get result of every sub-request, the request itself and one level in between: union over the matching rules of the value at the rule's storage path wrapped in the unmatched rest of its request; not judged when contributions disagree, a scalar sits on a storage path, open placeholders are ordered differently in request and storage (known finding), or an empty map is involved")
 	c.Assume("whether a request is accepted is not judged, except that a write (read) for which no writeable (readable) rule matches must be refused")
 	c.Assume("generated rule requests never repeat a placeholder; a transaction object is never shared between goroutines")
 
